@@ -1,16 +1,23 @@
-(* Proofs about the symlink-target side of Model/RREntries.v: RRSLRecord.Component.factory,
-   Component.name / is_continued / set_continued and RRSLRecord.name().
+(* Proofs about the symlink-target side of Model/RREntries.v: RRSLRecord.Component.factory (literal or not),
+   Component.name / is_continued / set_continued / recorded_length and RRSLRecord.name(), for rockridge.py AFTER
+   the repair "Rock Ridge symlink components are accounted and recorded by their real length".
 
    Main results
      sl_name_factory          for EVERY target t: name() of the components _new_symlink builds for an
                               uncut target (factory of each '/'-piece, a leading empty piece -> b'/') is t
-     sl_name_slices           in memory, pieces cut into continued slices are glued back by name()
-     sl_factory_roundtrip     ... and for uncut targets also after record() -> parse() (normal forms)
-   Refuted (both reproduced on the real library; the two known findings of C08):
-     sl_continued_dot_refuted   a continued slice spelling "." : Component.record() writes (2, 0) and drops
-                                the CONTINUE bit, so after record() -> parse() name() is "./b", not ".b"
-     sl_name_root_only_refuted  name() of the single ROOT component is b'' (an RRIP reader reads "/");
-     sl_empty_target_is_root    and the empty target is encoded as that very record *)
+     sl_name_slices           in memory, pieces cut into continued (literal) slices are glued back by name()
+     sl_made_roundtrip        record() -> parse() of any components _new_symlink can build (factory, literal
+                              factory, literal + set_continued): the parsed ones are the normal forms, name() and
+                              is_continued() are unchanged
+     sl_slices_roundtrip      hence: pieces cut into slices at ANY place (a slice may spell "." or ".."), recorded
+                              and parsed, are read back by name() as the pieces joined with '/'
+                              (replaces the former sl_continued_dot_refuted; its witness: sl_continued_dot_roundtrip)
+     sl_factory_roundtrip     the uncut case, statement unchanged
+   Still refuted (reader side, unchanged code; reproduced on the real library):
+     sl_name_root_only_refuted  name() of the single ROOT component is b'' (an RRIP reader reads "/"); pycdlib
+                                itself never writes that record: the target "/" is [ROOT; NAME ""], which name()
+                                reads as "/" (sl_root_target_roundtrip)
+     sl_empty_target_is_root    the empty target would be encoded as that very record *)
 From Coq Require Import ZArith List Bool Lia ZifyBool.
 From PV.Base Require Import Prim.
 From PV.Model Require Import Codec RREntries.
@@ -70,30 +77,41 @@ Proof.
   cbn [fold_left]. rewrite F, name_fold_pieces by exact Hps. exact J.
 Qed.
 
-(* cut pieces: a piece is a non-empty list of slices, every slice but the last is marked continued
+(* cut pieces: a piece is a non-empty list of slices.  An uncut piece goes through factory(piece) when it is
+   '.' or '..' and through factory(piece, literal=True) otherwise -- the same component as factory(piece) for a
+   piece that is not "/"; the slices of a cut piece are literal, every slice but the last is marked continued
    (set_last_component_continued); name() concatenates the slices of a piece *)
-Fixpoint slice_comps (slices : list (list Z)) : list comp :=
+Fixpoint lit_comps (slices : list (list Z)) : list comp :=
   match slices with
   | [] => []
-  | [s] => [sl_factory s]
-  | s :: r => comp_set_continued (sl_factory s) :: slice_comps r
+  | [s] => [sl_factory_lit s]
+  | s :: r => comp_set_continued (sl_factory_lit s) :: lit_comps r
   end.
+Definition slice_comps (slices : list (list Z)) : list comp :=
+  match slices with [s] => [sl_factory s] | _ => lit_comps slices end.
+
+Lemma lit_name s : comp_name (sl_factory_lit s) = s /\ comp_is_continued (sl_factory_lit s) = false.
+Proof. split; reflexivity. Qed.
+Lemma lit_continued_name s : comp_name (comp_set_continued (sl_factory_lit s)) = s /\
+  comp_is_continued (comp_set_continued (sl_factory_lit s)) = true.
+Proof. split; reflexivity. Qed.
+
 Lemma append_last_snoc out x s : append_last (out ++ [x]) s = out ++ [x ++ s].
 Proof. unfold append_last. rewrite rev_app_distr. cbn [rev app]. rewrite rev_involutive. reflexivity. Qed.
 
 Lemma name_fold_slices slices : slices <> [] -> Forall (fun q => ~ In 47 q) slices ->
   forall out x rest,
-  fold_left sl_name_step (slice_comps slices ++ rest) (out ++ [x], true) =
+  fold_left sl_name_step (lit_comps slices ++ rest) (out ++ [x], true) =
   fold_left sl_name_step rest (out ++ [x ++ concat slices], false).
 Proof.
   induction slices as [|s r IH]; intros Hne Hs out x rest; [congruence|].
   inversion Hs as [|? ? Hq Hr]; subst. destruct r as [|s2 r].
-  - cbn [slice_comps app fold_left concat]. unfold sl_name_step at 2.
-    destruct (factory_name s) as [Hn Hc]. rewrite Hn, Hc, (not_slash s Hq). cbn [negb].
+  - cbn [lit_comps app fold_left concat]. unfold sl_name_step at 2.
+    destruct (lit_name s) as [Hn Hc]. rewrite Hn, Hc, (not_slash s Hq). cbn [negb].
     rewrite append_last_snoc, app_nil_r. reflexivity.
-  - change (slice_comps (s :: s2 :: r)) with (comp_set_continued (sl_factory s) :: slice_comps (s2 :: r)).
+  - change (lit_comps (s :: s2 :: r)) with (comp_set_continued (sl_factory_lit s) :: lit_comps (s2 :: r)).
     cbn [app fold_left]. unfold sl_name_step at 2.
-    destruct (continued_name s) as [Hn Hc]. rewrite Hn, Hc, (not_slash s Hq). cbn [negb].
+    destruct (lit_continued_name s) as [Hn Hc]. rewrite Hn, Hc, (not_slash s Hq). cbn [negb].
     rewrite append_last_snoc, IH by (congruence || assumption).
     cbn [concat]. rewrite <- !app_assoc. reflexivity.
 Qed.
@@ -108,9 +126,9 @@ Proof.
   - cbn [slice_comps app fold_left concat]. unfold sl_name_step at 2.
     destruct (factory_name s) as [Hn Hc]. rewrite Hn, Hc, (not_slash s Hq). cbn [negb].
     rewrite IH, <- app_assoc, app_nil_r. reflexivity.
-  - change (slice_comps (s :: s2 :: r)) with (comp_set_continued (sl_factory s) :: slice_comps (s2 :: r)).
+  - change (slice_comps (s :: s2 :: r)) with (comp_set_continued (sl_factory_lit s) :: lit_comps (s2 :: r)).
     cbn [app fold_left]. unfold sl_name_step at 2.
-    destruct (continued_name s) as [Hn Hc]. rewrite Hn, Hc, (not_slash s Hq). cbn [negb].
+    destruct (lit_continued_name s) as [Hn Hc]. rewrite Hn, Hc, (not_slash s Hq). cbn [negb].
     rewrite name_fold_slices by (congruence || assumption).
     rewrite IH, <- app_assoc. reflexivity.
 Qed.
@@ -121,58 +139,39 @@ Theorem sl_name_slices pieces :
   sl_name (flat_map slice_comps pieces) = LongNames.join_slash (map (@concat Z) pieces).
 Proof. intros H. unfold sl_name. rewrite name_fold_cut by exact H. reflexivity. Qed.
 
-(* ---- refuted ---- *)
-(* known finding c08:symlink-target-not-recovered:piece-starting-with-dot, in Component.record():
-   the slice "." of the name ".b" carries flags 2|1 in memory; record() writes (2, 0) *)
-Theorem sl_continued_dot_refuted :
-  exists comps b s',
-    comps = slice_comps [[46]; [98]] /\ sl_name comps = [46; 98] /\
-    rec_sl (mk_sl 0 comps) = Some b /\ parse_sl b = Some s' /\
-    sl_name (sl_comps s') = [46; 47; 98] /\ sl_name (sl_comps s') <> sl_name comps.
-Proof.
-  do 3 eexists. split; [reflexivity|]. split; [vm_compute; reflexivity|].
-  split; [vm_compute; reflexivity|]. split; [vm_compute; reflexivity|].
-  split; [vm_compute; reflexivity|]. vm_compute. discriminate.
-Qed.
-(* known finding c08:symlink-target-not-recovered:root-only, in RRSLRecord.name() *)
-Theorem sl_name_root_only_refuted :
-  parse_sl [83; 76; 7; 1; 0; 8; 0] = Some (mk_sl 0 [mk_comp 8 0 []]) /\
-  sl_name [mk_comp 8 0 []] = [] /\
-  LongNames.render [LongNames.pair_comp (8, [])] = [47].
-Proof. repeat split; vm_compute; reflexivity. Qed.
-(* the empty target is recorded as the ROOT component: name() agrees ("" = ""), an RRIP reader reads "/" *)
-Theorem sl_empty_target_is_root :
-  components_of_target [] = [mk_comp 8 0 [47]] /\
-  rec_sl (mk_sl 0 (components_of_target [])) = Some [83; 76; 7; 1; 0; 8; 0].
-Proof. split; vm_compute; reflexivity. Qed.
-
-(* record() -> parse() keeps name() for every uncut target whose record fits in 255 bytes *)
+(* ---- record() -> parse() ---- *)
 Definition norm_comp (c : comp) : comp :=
   if flag_set (c_flags c) 1 then mk_comp 2 0 [] else if flag_set (c_flags c) 2 then mk_comp 4 0 []
   else if flag_set (c_flags c) 3 then mk_comp 8 0 [] else c.
-Lemma norm_factory s : (zlen s <=? 255) = true ->
-  sl_comp_ok (norm_comp (sl_factory s)) = true /\
-  sl_comp_enc (norm_comp (sl_factory s)) = sl_comp_enc (sl_factory s) /\
-  comp_name (norm_comp (sl_factory s)) = comp_name (sl_factory s) /\
-  comp_is_continued (norm_comp (sl_factory s)) = comp_is_continued (sl_factory s) /\
-  sl_comp_length (comp_name (norm_comp (sl_factory s))) = sl_comp_length (comp_name (sl_factory s)).
-Proof.
-  intros Hl. unfold sl_factory.
-  destruct (zlist_eqb s s_dot) eqn:E1; [repeat split; reflexivity|].
-  destruct (zlist_eqb s s_dotdot) eqn:E2; [repeat split; reflexivity|].
-  destruct (zlist_eqb s s_slash) eqn:E3; [repeat split; reflexivity|].
-  repeat split; try reflexivity.
-  unfold norm_comp, sl_comp_ok. cbn [c_flags c_len c_data flag_set].
-  change (flag_set 0 1) with false. change (flag_set 0 2) with false. change (flag_set 0 3) with false.
-  cbn [c_flags c_len c_data]. unfold is_special. rewrite E1, E2, E3, Z.eqb_refl.
-  pose proof (zlen_nonneg s). replace (u8_ok (zlen s)) with true by (unfold u8_ok; lia). reflexivity.
-Qed.
+(* the components _new_symlink can build *)
+Definition made (c : comp) : Prop :=
+  exists s, zlen s <= 255 /\
+    (c = sl_factory s \/ c = sl_factory_lit s \/ c = comp_set_continued (sl_factory_lit s)).
 
-Lemma norm_factory_packable s : (zlen s <=? 255) = true -> sl_comp_packable (sl_factory s) = true.
+Lemma norm_made c : made c ->
+  sl_comp_ok (norm_comp c) = true /\ sl_comp_enc (norm_comp c) = sl_comp_enc c /\
+  comp_name (norm_comp c) = comp_name c /\ comp_is_continued (norm_comp c) = comp_is_continued c /\
+  comp_recorded_length (norm_comp c) = comp_recorded_length c /\ sl_comp_packable c = true.
 Proof.
-  intros Hl. destruct (factory_cases s) as [[-> ->]|[[-> ->]|[[-> ->]| -> ]]]; try reflexivity.
-  unfold sl_comp_packable. cbn [c_flags c_len]. pose proof (zlen_nonneg s).
-  replace (u8_ok (zlen s)) with true by (unfold u8_ok; lia). reflexivity.
+  intros (s & Hl & H). pose proof (zlen_nonneg s) as Hn.
+  assert (Plain : forall f, f = 0 \/ f = 1 ->
+            sl_comp_ok (norm_comp (mk_comp f (zlen s) s)) = true /\
+            sl_comp_enc (norm_comp (mk_comp f (zlen s) s)) = sl_comp_enc (mk_comp f (zlen s) s) /\
+            comp_name (norm_comp (mk_comp f (zlen s) s)) = comp_name (mk_comp f (zlen s) s) /\
+            comp_is_continued (norm_comp (mk_comp f (zlen s) s)) = comp_is_continued (mk_comp f (zlen s) s) /\
+            comp_recorded_length (norm_comp (mk_comp f (zlen s) s)) = comp_recorded_length (mk_comp f (zlen s) s) /\
+            sl_comp_packable (mk_comp f (zlen s) s) = true).
+  { intros f [-> | ->]; (repeat split; try reflexivity);
+      unfold norm_comp, sl_comp_ok, sl_comp_packable; cbn [c_flags c_len c_data];
+      try change (flag_set 0 1) with false; try change (flag_set 0 2) with false; try change (flag_set 0 3) with false;
+      try change (flag_set 1 1) with false; try change (flag_set 1 2) with false; try change (flag_set 1 3) with false;
+      cbn [c_flags c_len c_data orb]; rewrite ?Z.eqb_refl;
+      replace (u8_ok (zlen s)) with true by (unfold u8_ok; lia); reflexivity. }
+  destruct H as [-> | [-> | ->]].
+  - destruct (factory_cases s) as [[-> ->]|[[-> ->]|[[-> ->]| -> ]]]; try (repeat split; reflexivity).
+    apply Plain. left; reflexivity.
+  - apply Plain. left; reflexivity.
+  - apply Plain. right; reflexivity.
 Qed.
 
 Lemma sl_name_ext : forall a b st, map comp_name a = map comp_name b ->
@@ -186,6 +185,118 @@ Proof.
   apply IH; assumption.
 Qed.
 
+Lemma current_length_fold fl cs :
+  sl_current_length (mk_sl fl cs) = 5 + fold_right (fun c acc => comp_recorded_length c + acc) 0 cs.
+Proof. unfold sl_current_length. cbn [sl_comps]. apply fold_left_sum. Qed.
+
+(* record() -> parse() of any components _new_symlink builds: the parsed components are the normal forms
+   (no data on ./../root), name() and is_continued() are unchanged *)
+Theorem sl_made_roundtrip fl cs rest :
+  u8_ok fl = true -> Forall made cs -> sl_current_length (mk_sl fl cs) <= 255 ->
+  rec_sl (mk_sl fl cs) = Some (enc_sl (mk_sl fl cs)) /\
+  parse_sl (enc_sl (mk_sl fl cs) ++ rest) = Some (mk_sl fl (map norm_comp cs)) /\
+  sl_name (map norm_comp cs) = sl_name cs /\
+  map comp_is_continued (map norm_comp cs) = map comp_is_continued cs.
+Proof.
+  intros Hf Hm Hl.
+  assert (A : map comp_name (map norm_comp cs) = map comp_name cs /\
+              map comp_is_continued (map norm_comp cs) = map comp_is_continued cs /\
+              map sl_comp_enc (map norm_comp cs) = map sl_comp_enc cs /\
+              forallb sl_comp_ok (map norm_comp cs) = true /\
+              forallb sl_comp_packable cs = true /\
+              fold_right (fun c acc => comp_recorded_length c + acc) 0 (map norm_comp cs)
+              = fold_right (fun c acc => comp_recorded_length c + acc) 0 cs).
+  { clear Hl. induction Hm as [|c cs Hc Hcs IH]; [repeat split; reflexivity|].
+    destruct IH as (I1 & I2 & I3 & I4 & I5 & I6). destruct (norm_made c Hc) as (N1 & N2 & N3 & N4 & N5 & N6).
+    cbn [map forallb fold_right]. rewrite I1, I2, I3, I4, I5, I6, N1, N2, N3, N4, N5, N6. repeat split; reflexivity. }
+  destruct A as (A1 & A2 & A3 & A4 & A5 & A6).
+  assert (Ecur : sl_current_length (mk_sl fl (map norm_comp cs)) = sl_current_length (mk_sl fl cs))
+    by (rewrite !current_length_fold, A6; reflexivity).
+  assert (Eenc : enc_sl (mk_sl fl (map norm_comp cs)) = enc_sl (mk_sl fl cs)).
+  { unfold enc_sl. rewrite Ecur. cbn [sl_comps sl_flags]. rewrite A3. reflexivity. }
+  assert (Hok : sl_ok (mk_sl fl (map norm_comp cs)) = true).
+  { unfold sl_ok. cbn [sl_flags sl_comps]. rewrite Hf, A4, Ecur. cbn [andb]. lia. }
+  destruct (sl_roundtrip _ rest Hok) as (R & P & Z). rewrite Eenc in P, Z. rewrite Ecur in Z.
+  split; [|split; [exact P|split; [|exact A2]]].
+  - unfold rec_sl. cbn [sl_flags sl_comps]. rewrite Hf, A5.
+    assert (5 <= sl_current_length (mk_sl fl cs)).
+    { rewrite <- Z. unfold enc_sl. rewrite zlen_app.
+      pose proof (zlen_nonneg (concat (map sl_comp_enc (sl_comps (mk_sl fl cs))))).
+      change (zlen (sig_SL ++ _)) with 5. lia. }
+    replace (u8_ok (sl_current_length (mk_sl fl cs))) with true by (unfold u8_ok; lia). reflexivity.
+  - unfold sl_name. rewrite (sl_name_ext _ _ _ A1 A2). reflexivity.
+Qed.
+
+Lemma lit_made slices : Forall (fun q => zlen q <= 255) slices -> Forall made (lit_comps slices).
+Proof.
+  induction 1 as [|s r Hs Hr IH]; [constructor|]. destruct r as [|s2 r].
+  - constructor; [exists s; auto|constructor].
+  - change (lit_comps (s :: s2 :: r)) with (comp_set_continued (sl_factory_lit s) :: lit_comps (s2 :: r)).
+    constructor; [exists s; auto|exact IH].
+Qed.
+Lemma slice_made slices : Forall (fun q => zlen q <= 255) slices -> Forall made (slice_comps slices).
+Proof.
+  intros H. destruct slices as [|s [|s2 r]]; [constructor| |apply lit_made; exact H].
+  inversion H; subst. constructor; [exists s; auto|constructor].
+Qed.
+
+(* pieces of a target cut into slices at ANY place -- a slice may spell "." or ".." --, recorded in one SL entry and
+   parsed back, are read by name() as the pieces joined with '/' *)
+Theorem sl_slices_roundtrip fl pieces rest :
+  u8_ok fl = true ->
+  Forall (fun sl => sl <> [] /\ Forall (fun q => ~ In 47 q) sl /\ Forall (fun q => zlen q <= 255) sl) pieces ->
+  let cs := flat_map slice_comps pieces in
+  sl_current_length (mk_sl fl cs) <= 255 ->
+  exists b s', rec_sl (mk_sl fl cs) = Some b /\ parse_sl (b ++ rest) = Some s' /\ sl_flags s' = fl /\
+    sl_name (sl_comps s') = LongNames.join_slash (map (@concat Z) pieces).
+Proof.
+  intros Hf Hp cs Hl.
+  assert (M : Forall made cs).
+  { clear Hl. subst cs. induction Hp as [|sl ps (_ & _ & H) _ IH]; [constructor|]. cbn [flat_map].
+    apply Forall_app. split; [apply slice_made; exact H|exact IH]. }
+  destruct (sl_made_roundtrip fl cs rest Hf M Hl) as (R & P & N & _).
+  eexists _, _. split; [exact R|]. split; [exact P|]. split; [reflexivity|]. cbn [sl_comps]. rewrite N.
+  apply sl_name_slices. apply Forall_forall. intros sl Hin.
+  destruct (proj1 (Forall_forall _ _) Hp sl Hin) as (A & B & _). auto.
+Qed.
+
+(* the former witness of c08:symlink-target-not-recovered:piece-starting-with-dot: the name ".b" cut after its
+   dot; the slice "." is now the plain component (1, 1, ".") and ".b" is read back *)
+Example sl_continued_dot_roundtrip :
+  exists comps b s',
+    comps = slice_comps [[46]; [98]] /\ sl_name comps = [46; 98] /\
+    rec_sl (mk_sl 0 comps) = Some b /\ b = [83; 76; 11; 1; 0; 1; 1; 46; 0; 1; 98] /\ parse_sl b = Some s' /\
+    sl_name (sl_comps s') = [46; 98].
+Proof. do 3 eexists. repeat split; vm_compute; reflexivity. Qed.
+
+(* ---- reader side, unchanged ---- *)
+(* known finding c08:symlink-target-not-recovered:root-only, in RRSLRecord.name(): a foreign image that stores
+   the target "/" as the single ROOT component *)
+Theorem sl_name_root_only_refuted :
+  parse_sl [83; 76; 7; 1; 0; 8; 0] = Some (mk_sl 0 [mk_comp 8 0 []]) /\
+  sl_name [mk_comp 8 0 []] = [] /\
+  LongNames.render [LongNames.pair_comp (8, [])] = [47].
+Proof. repeat split; vm_compute; reflexivity. Qed.
+(* pycdlib itself records the target "/" as [ROOT; NAME ""]: split gives ['', ''], and name() reads "/" back *)
+Example sl_root_target_roundtrip :
+  components_of_target [47] = [mk_comp 8 0 [47]; mk_comp 0 0 []] /\
+  rec_sl (mk_sl 0 (components_of_target [47])) = Some [83; 76; 9; 1; 0; 8; 0; 0; 0] /\
+  parse_sl [83; 76; 9; 1; 0; 8; 0; 0; 0] = Some (mk_sl 0 [mk_comp 8 0 []; mk_comp 0 0 []]) /\
+  sl_name [mk_comp 8 0 []; mk_comp 0 0 []] = [47].
+Proof. repeat split; vm_compute; reflexivity. Qed.
+(* the empty target is recorded as the ROOT component: name() agrees ("" = ""), an RRIP reader reads "/" *)
+Theorem sl_empty_target_is_root :
+  components_of_target [] = [mk_comp 8 0 [47]] /\
+  rec_sl (mk_sl 0 (components_of_target [])) = Some [83; 76; 7; 1; 0; 8; 0].
+Proof. split; vm_compute; reflexivity. Qed.
+
+Lemma factory_recorded s : comp_recorded_length (sl_factory s) = sl_comp_length s.
+Proof.
+  unfold sl_comp_length, is_special, sl_factory.
+  destruct (zlist_eqb s s_dot); [reflexivity|]. destruct (zlist_eqb s s_dotdot); [reflexivity|].
+  destruct (zlist_eqb s s_slash); reflexivity.
+Qed.
+
 (* record() -> parse() of factory-made (uncut) components: the parsed components are the normal forms
    (no data on ./../root) and name() is unchanged; together with sl_name_factory: the target is read back *)
 Theorem sl_factory_roundtrip fl ss rest :
@@ -196,45 +307,21 @@ Theorem sl_factory_roundtrip fl ss rest :
   sl_name (map norm_comp cs) = sl_name cs.
 Proof.
   intros Hf Hs Hl cs.
-  assert (A : map comp_name (map norm_comp cs) = map comp_name cs /\
-              map comp_is_continued (map norm_comp cs) = map comp_is_continued cs /\
-              map sl_comp_enc (map norm_comp cs) = map sl_comp_enc cs /\
-              forallb sl_comp_ok (map norm_comp cs) = true /\
-              forallb sl_comp_packable cs = true /\ map comp_name cs = ss).
-  { subst cs. induction ss as [|s ss IH]; [repeat split; reflexivity|].
-    cbn [forallb] in Hs. apply andb_prop in Hs. destruct Hs as [Hs1 Hs2].
-    assert (Hl2 : (len_sl ss <=? 255) = true).
-    { unfold len_sl in *. cbn [fold_left] in Hl. rewrite fold_left_sum in *.
-      unfold sl_comp_length at 1 in Hl. pose proof (zlen_nonneg s). destruct (is_special s); lia. }
-    destruct (IH Hs2 Hl2) as (I1 & I2 & I3 & I4 & I5 & I6).
-    destruct (norm_factory s Hs1) as (N1 & N2 & N3 & N4 & _).
-    cbn [map forallb]. rewrite I1, I2, I3, I4, I5, I6, N1, N2, N3, N4, (norm_factory_packable s Hs1).
-    rewrite (proj1 (factory_name s)). repeat split; reflexivity. }
-  destruct A as (A1 & A2 & A3 & A4 & A5 & A6).
-  assert (Ecur : sl_current_length (mk_sl fl (map norm_comp cs)) = sl_current_length (mk_sl fl cs)).
-  { unfold sl_current_length. cbn [sl_comps]. rewrite A1. reflexivity. }
-  assert (Eenc : enc_sl (mk_sl fl (map norm_comp cs)) = enc_sl (mk_sl fl cs)).
-  { unfold enc_sl. rewrite Ecur. cbn [sl_comps sl_flags]. rewrite A3. reflexivity. }
-  assert (Hcur : sl_current_length (mk_sl fl cs) = len_sl ss).
-  { unfold sl_current_length. cbn [sl_comps]. rewrite A6. reflexivity. }
-  assert (Hok : sl_ok (mk_sl fl (map norm_comp cs)) = true).
-  { unfold sl_ok. cbn [sl_flags sl_comps]. rewrite Hf, A4, Ecur, Hcur, Hl. reflexivity. }
-  destruct (sl_roundtrip _ rest Hok) as (_ & P & _). rewrite Eenc in P.
-  split; [|split; [exact P|]].
-  - unfold rec_sl. cbn [sl_flags sl_comps]. rewrite Hf, A5, Hcur.
-    assert (5 <= len_sl ss).
-    { unfold len_sl. rewrite fold_left_sum.
-      assert (G : forall l, 0 <= fold_right (fun n acc => sl_comp_length n + acc) 0 l).
-      { induction l as [|x l IHl]; cbn [fold_right]; [lia|]. unfold sl_comp_length at 1.
-        pose proof (zlen_nonneg x). destruct (is_special x); lia. }
-      specialize (G ss). lia. }
-    replace (u8_ok (len_sl ss)) with true by (unfold u8_ok; lia). reflexivity.
-  - unfold sl_name. rewrite (sl_name_ext _ _ _ A1 A2). reflexivity.
+  assert (M : Forall made cs).
+  { subst cs. apply Forall_forall. intros c Hc. apply in_map_iff in Hc. destruct Hc as (s & <- & Hin).
+    exists s. split; [|auto]. pose proof (proj1 (forallb_forall _ _) Hs s Hin). cbv beta in *. lia. }
+  assert (L : sl_current_length (mk_sl fl cs) = len_sl ss).
+  { rewrite current_length_fold. unfold len_sl. rewrite fold_left_sum. f_equal. subst cs. clear.
+    induction ss as [|s ss IH]; [reflexivity|]. cbn [map fold_right]. rewrite factory_recorded, IH. reflexivity. }
+  destruct (sl_made_roundtrip fl cs rest Hf M ltac:(lia)) as (R & P & N & _). auto.
 Qed.
 
 Print Assumptions sl_name_factory.
 Print Assumptions sl_name_slices.
+Print Assumptions sl_made_roundtrip.
+Print Assumptions sl_slices_roundtrip.
 Print Assumptions sl_factory_roundtrip.
-Print Assumptions sl_continued_dot_refuted.
+Print Assumptions sl_continued_dot_roundtrip.
 Print Assumptions sl_name_root_only_refuted.
+Print Assumptions sl_root_target_roundtrip.
 Print Assumptions sl_empty_target_is_root.
